@@ -1,5 +1,6 @@
 import BigtoolsModel.MergePost
 import BigtoolsModel.Fill
+import BigtoolsModel.Generated.Consts
 /-! # C15 — merging and gap-filling value streams preserve the per-base signal
 
 Models: `MG.merge W` = `merge_sections_many` (`ValueIter::next`: work windows of `W` bases — 50,000 in the code —
@@ -112,6 +113,15 @@ theorem documented_output_names_accepted (stem : List Nat) :
 theorem mixed_case_literals_refuse_documented_names :
     detect sBw sBigWigMixed sBedGraphMixed ([111, 117, 116] ++ sBigWigMixed) = .refused ∧
     detect sBw sBigWigMixed sBedGraphMixed ([111, 117, 116] ++ sBedGraphMixed) = .refused := by decide
+
+/-- The literals and the query start of the CURRENT source (re-extracted on every run) are the repaired ones:
+    so `documented_output_names_accepted` and `tool_reads_every_base_from_zero` speak about the code as it is. -/
+theorem source_uses_lower_case_suffixes_and_reads_from_zero :
+    Gen.MERGE_SUFFIX_BW = sBw ∧ Gen.MERGE_SUFFIX_BIGWIG = sBigWigLower ∧ Gen.MERGE_SUFFIX_BEDGRAPH = sBedGraphLower ∧
+    Gen.MERGE_QUERY_START = 0 := by decide
+
+/-- the work-window size of the current source is positive, so `merge_is_per_base_sum` applies to it -/
+theorem source_window_positive : 0 < Gen.DATA_SIZE := by decide
 
 /-- a run is cut where a work window ends (`W = 4`): the stream stays correct per base, runs need not be maximal -/
 example : MG.merge 4 [[⟨0, 6, 1⟩], [⟨3, 9, 2⟩]] = [⟨0, 3, 1⟩, ⟨3, 4, 3⟩, ⟨4, 6, 3⟩, ⟨6, 8, 2⟩, ⟨8, 9, 2⟩] := by decide
